@@ -99,7 +99,7 @@ def build_cpp(name, sources, flags=None, libs=None, extra_inc=None, deps=None):
         if os.path.exists(exe):
             return exe
         os.makedirs(outdir, exist_ok=True)
-        inc = [f"-I{REPO}/include", f"-I{REPO}", f"-I{REPO}/apps", f"-I{HARNESS}", f"-I{HARNESS}/shim"] + [f"-I{i}" for i in (extra_inc or [])]
+        inc = [f"-I{REPO}/include", f"-I{REPO}/include/m17cxx", f"-I{REPO}", f"-I{REPO}/apps", f"-I{HARNESS}", f"-I{HARNESS}/shim"] + [f"-I{i}" for i in (extra_inc or [])]
         cmd = ["g++"] + flags + inc + srcs + ["-o", exe + ".tmp", "-pthread"] + libs
         rc, out = sh(cmd, timeout=1200)
         if rc != 0:
